@@ -362,3 +362,47 @@ Definition extracted_eqb (a b : extracted) : bool :=
   && list_eqb Nat.eqb (e_inputs a) (e_inputs b) && list_eqb Nat.eqb (e_outputs a) (e_outputs b).
 Definition usages_eqb (a b : usages) : bool :=
   list_eqb (fun x y => Nat.eqb (fst x) (fst y) && set_eqb (snd x) (snd y)) a b.
+
+(* ------------------------------------------------------------------ accessors derived from the structure
+   value.graph / value.producer() / value.is_initializer() as functions of the graph tree alone: the graph
+   that lists the value among its inputs / initializers / node outputs, the node that lists it among its
+   outputs, membership in some initializer list.  The correspondence pins these against the accessors of the
+   implementation on every generated graph, and extract / analyze are run on the derived table. *)
+Definition graphs_of (root : graph) : list graph := root :: rec_graphs_g root.
+
+Fixpoint first_graph (v : nat) (gs : list graph) : option nat :=
+  match gs with
+  | [] => None
+  | g :: r => if mem v (defs_g g) then Some (g_id g) else first_graph v r
+  end.
+Fixpoint first_node (v : nat) (ns : list node) : option nat :=
+  match ns with
+  | [] => None
+  | n :: r => if mem v (n_outs n) then Some (n_id n) else first_node v r
+  end.
+Definition d_owner (root : graph) (v : nat) : option nat := first_graph v (graphs_of root).
+Definition d_prod (root : graph) (v : nat) : option nat := first_node v (rec_nodes_g root).
+Definition d_init (root : graph) (v : nat) : bool := existsb (fun g => mem v (g_inits g)) (graphs_of root).
+
+(* names: value id -> name code (generator data); vs: the values to tabulate *)
+Definition d_heap (root : graph) (names : list (nat * nat)) (vs : list nat) : heap :=
+  map (fun v => (v, VI (d_owner root v) (d_prod root v) (d_init root v)
+                       (match assoc v names with Some c => c | None => 0 end))) vs.
+
+Definition vinfo_eqb (a b : vinfo) : bool :=
+  onat_eqb (v_owner a) (v_owner b) && onat_eqb (v_prod a) (v_prod b)
+  && Bool.eqb (v_init a) (v_init b) && Nat.eqb (v_name a) (v_name b).
+Definition heap_eqb (a b : heap) : bool :=
+  list_eqb (fun x y => Nat.eqb (fst x) (fst y) && vinfo_eqb (snd x) (snd y)) a b.
+
+(* structural well-formedness, decidable (evaluated on every generated case):
+   node ids are distinct; every definition site agrees with the derived accessors (so every value is defined
+   in one graph and produced by one node) *)
+Definition nodup_b (l : list nat) : bool := list_eqb Nat.eqb (dedup l) l.
+Definition wf_ids_b (root : graph) : bool := nodup_b (map n_id (rec_nodes_g root)).
+Definition wf_owner_b (root : graph) : bool :=
+  forallb (fun g => forallb (fun v => onat_eqb (d_owner root v) (Some (g_id g))) (defs_g g)) (graphs_of root).
+Definition wf_prod_b (root : graph) : bool :=
+  forallb (fun n => forallb (fun v => onat_eqb (d_prod root v) (Some (n_id n))) (n_outs n)) (rec_nodes_g root).
+Definition wf_gids_b (root : graph) : bool := nodup_b (map g_id (graphs_of root)).
+Definition wf_b (root : graph) : bool := wf_ids_b root && wf_gids_b root && wf_owner_b root && wf_prod_b root.
